@@ -67,7 +67,7 @@ func MutateTOML(r Rnd, text string, n int) (string, []string) {
 				lj := r.Intn(len(lines))
 				if m := kvRe.FindStringSubmatch(lines[lj]); m != nil {
 					k := strings.TrimSpace(m[2])
-					nk := []string{k + "x", "a." + k, k + ".b", `"` + k + `"`, "x" + k, "KEY_NOPE", "xzz", "x1ffff", "ABS_NOPE", strings.ToLower(k)}[r.Intn(10)]
+					nk := []string{k + "x", "a." + k, k + ".b", `"` + k + `"`, "x" + k, "KEY_NOPE", "xzz", "x1ffff", "ABS_NOPE", strings.ToLower(k), `""`, "x", `" "`}[r.Intn(13)]
 					log = append(log, fmt.Sprintf("line %d: key %s -> %s", lj, k, nk))
 					lines[lj] = m[1] + nk + " = " + m[3]
 					break
